@@ -146,7 +146,7 @@ fn cases(thorough: bool) -> Vec<Case> {
     v.push(Case { label: "all kinds extended, model plugin enabled but unused".into(), plugin: true, files: vec![f0, f1], expected });
     // 4. top-level descriptions with characters the JavaScript layer must escape (one-line forms without quote / backslash,
     //    block forms at column 0: the string-literal layer's own known findings are out of this family)
-    for d in ["\"back`tick\"", "\"dollar ${brace}\"", "\"$ { split $\"", "\"\"\"\nblock ` ${a} \\\\ \\n literal\nline2\n\"\"\"", "\"\"\"\n$\n{\n`\n\\\n\"\"\"", "\"unicode \u{e9}\u{1F600}\""] {
+    for d in ["\"back`tick\"", "\"dollar ${brace}\"", "\"$ { split $\"", "\"\"\"\nblock ` ${a} \\\\ \\n literal\nline2\n\"\"\"", "\"\"\"\n$\n{\n`\n\\\n\"\"\"", "\"unicode \u{e9}\u{1F600}\"", "\"\"\"\n\\${HOME} \\\\${x} \\\\\\${y} \\` \\\\` $\\{z}\n\"\"\""] {
         let src = format!("{prelude}{d}\ntype Query {{ a: Int }}\n{d}\nscalar S {ts}\n{d}\ndirective @own on FIELD\n");
         let exp = format!("{prelude}{d}\ntype Query {{ a: Int }}\n{d}\nscalar S\n{d}\ndirective @own on FIELD\n");
         v.push(Case { label: format!("descriptions {}", d.chars().take(30).collect::<String>().replace('\n', "\\n")), plugin: false, files: vec![src], expected: exp });
